@@ -23,6 +23,10 @@ pub fn squfof(n: u64) -> Option<(u64, u64)> {
         let mut p_prev = nsqrt;
         let mut q_prev = 1;
         let mut q = nk - nsqrt * nsqrt;
+        if q == 0 {
+            // n * k is a perfect square: this multiplier cannot be used.
+            continue;
+        }
         let mut q_sqrt = 0;
 
         for i in 1..=iters {
